@@ -45,6 +45,9 @@ def run(tier, seed, t0):
             jobs.append(job("debug", be, 1, 3, 7, seed, 15, 10, n="1,4", timeout=3600))
             jobs.append(job("debug", be, 2, 2, 10, seed, 10, 5, n="2", timeout=3600))
 
+    for i, j in enumerate(jobs):      # environment: sticky floating-point exception flags left raised by unrelated earlier code
+        if i % 3 == 1:
+            j.env = dict(j.env, VH_FPFLAGS="1")
     for i, j in enumerate(jobs):      # process history: every other job uses a key of another layout first
         if i % 2 == 0:
             j.args = j.args + ["--prelude", "1"]
